@@ -332,6 +332,24 @@ def boundscheck_setting():
 
 
 # ======================================================================== the interpreter
+def term_small(t, limit=1500):
+    """does the term DAG have at most `limit` nodes?"""
+    if not isinstance(t, z3.ExprRef):
+        return True
+    seen = set()
+    stack = [t]
+    while stack:
+        x = stack.pop()
+        i = x.get_id()
+        if i in seen:
+            continue
+        seen.add(i)
+        if len(seen) > limit:
+            return False
+        stack.extend(x.children())
+    return True
+
+
 class Loop:
     __slots__ = ("brk", "cont")
 
@@ -422,7 +440,10 @@ class Run:
         if c is False:
             return
         if self.symbolic and c is not True:
-            if not self.feasible(c):
+            if term_small(c):
+                # (z3.simplify has no time limit: only small terms; it folds guards that are constant in disguise)
+                c = self.simp(c)
+            if c is False or (c is not True and not self.feasible(c)):
                 return
         w = self.mod.where(node)
         if c is True and not self.symbolic:
@@ -891,8 +912,11 @@ class Run:
                     break
                 if (self.loop_bound is not None and count >= self.loop_bound and (is_sym(gi) or self.symbolic and self.draws)):
                     # (with symbolic draws a concretely-true guard means: no draw is accepted -> the step is vacuous)
-                    self.events.append(Event("unwind", gi, self.mod.where(s)))
-                    self.dead = or_(self.dead, gi)
+                    if is_sym(gi):
+                        self.event("unwind", True, s, gi)             # feasibility-pruned like every event
+                    else:
+                        self.events.append(Event("unwind", gi, self.mod.where(s)))
+                        self.dead = or_(self.dead, gi)
                     break
                 if count >= hard:
                     raise Unsupported("loop does not terminate in concrete control")
